@@ -96,6 +96,7 @@ def install(E):
 
     # ------------------------------------------------------------ hex / base64
     def note_dec(e, src, kind, res, valid):
+        e.P.keep.append(src)
         e.P.g.setdefault('dec', {}).setdefault(src.get_id(), []).append((kind, res, valid))
     E.note_dec = note_dec
     I['encoding/hex.EncodeToString'] = lambda e, a: e.hexenc(e.tobytes(a[0]))
